@@ -5,6 +5,8 @@
 
 use binrw::{BinRead, BinWrite};
 
+use super::error::BlteError;
+
 /// Encryption type for BLTE chunks
 #[derive(Debug, Clone, Copy, PartialEq, Eq)]
 #[repr(u8)]
@@ -49,7 +51,9 @@ pub struct EncryptedHeader {
     pub iv: Vec<u8>,
 
     /// Encryption type
-    #[br(map = |x: u8| EncryptionType::from_byte(x).expect("valid encryption type byte"))]
+    #[br(try_map = |x: u8| EncryptionType::from_byte(x).ok_or_else(|| {
+        BlteError::CompressionError(format!("Unknown encryption type: 0x{x:02X}"))
+    }))]
     #[bw(map = |x: &EncryptionType| x.as_byte())]
     pub encryption_type: EncryptionType,
 }
